@@ -141,13 +141,13 @@ func c15RelChildren(r *osm.Relation) []c15Child {
 // reference semantics, written independently of the implementation and of the Lean model
 func c15Ref(isRel bool, t int64, cs []c15Child, us []c15Upd) (out []c15Child, pending []c15Upd, errIdx int) {
 	out = append([]c15Child{}, cs...)
-	errIdx = -1
+	errIdx = c15NoErr
 	for _, u := range us {
 		if u.ts > t {
 			pending = append(pending, u)
 			continue
 		}
-		if u.idx >= len(out) {
+		if u.idx < 0 || u.idx >= len(out) {
 			return out, us, u.idx
 		}
 		c := &out[u.idx]
@@ -156,8 +156,11 @@ func c15Ref(isRel bool, t int64, cs []c15Child, us []c15Upd) (out []c15Child, pe
 			c.orient = -c.orient
 		}
 	}
-	return out, pending, -1
+	return out, pending, c15NoErr
 }
+
+// c15NoErr: "no index error" (any int can be an update index, so -1 cannot be the sentinel)
+const c15NoErr = -1 << 40
 
 func c15EqChildren(a, b []c15Child) bool {
 	if len(a) != len(b) {
@@ -217,11 +220,6 @@ func c15Exec(op string) (string, *Violation) {
 		if !ok {
 			return "bad-op", nil
 		}
-		for _, u := range us {
-			if u.idx < 0 {
-				return "bad-op", nil
-			}
-		}
 		wantC, wantP, wantErr := c15Ref(isRel, t, cs, us)
 		var out string
 		var gotC []c15Child
@@ -249,7 +247,7 @@ func c15Exec(op string) (string, *Violation) {
 			ls, la := c15PtsStr(l1), c15PtsStr(l2)
 			out += " L " + ls + " A " + la
 			// geometry-at-time = geometry of the updated copy, for fully annotated ways with annotated in-range updates
-			full := wantErr < 0
+			full := wantErr == c15NoErr
 			for _, c := range cs {
 				if c.ver == 0 {
 					full = false
@@ -295,7 +293,7 @@ func c15Exec(op string) (string, *Violation) {
 		}
 		if viol == nil {
 			switch {
-			case wantErr >= 0:
+			case wantErr != c15NoErr:
 				oe, ok := err.(*osm.UpdateIndexOutOfRangeError)
 				if !ok || oe.Index != wantErr {
 					viol = &Violation{Signature: "index-error-missing", Text: fmt.Sprintf("expected UpdateIndexOutOfRangeError{%d}, got %v", wantErr, err)}
@@ -363,7 +361,7 @@ func c15Exec(op string) (string, *Violation) {
 		}
 		if ordered {
 			want, _, werr := c15Ref(isRel, t2, cs, us)
-			if werr < 0 && (e2 != nil || !c15EqChildren(final, want)) {
+			if werr == c15NoErr && (e2 != nil || !c15EqChildren(final, want)) {
 				return out, &Violation{Signature: "compose-differs", Text: fmt.Sprintf("apply(t1=%d) then apply(t2=%d) gives %v (err %v), direct apply(t2) gives %v", t1, t2, final, e2, want)}
 			}
 		}
@@ -415,6 +413,9 @@ func c15Gen(r *Rng, tier string, emit func(string)) {
 			}
 			if r.Chance(4) {
 				idx = nc + r.Intn(3)
+			}
+			if r.Chance(2) {
+				idx = -1 - r.Intn(3) // Update.Index is a signed int read verbatim from XML/JSON
 			}
 			ver := int64(2 + r.Intn(6))
 			if r.Chance(3) {
